@@ -415,6 +415,67 @@ def isinstance_(obj, cls):
     return builtins.isinstance(obj, cls)
 
 
+class SymFormat:
+    """The result of `"literal" % args` with symbolic args (see loader._FmtRewrite)."""
+
+    def __init__(self, template, args):
+        self.template = template
+        self.args = args if isinstance(args, tuple) else (args,)
+
+    def __str__(self):
+        return self.template
+
+    __repr__ = __str__
+
+    def __contains__(self, s):
+        return s in self.template
+
+    def __deepcopy__(self, memo):
+        return self
+
+
+def has_symbolic(x):
+    if isinstance(x, (SymNum, SymBool, SymBytes)) or type(x).__name__ in ("Blob", "SymTag", "SymComplex"):
+        return True
+    if isinstance(x, (tuple, list)):
+        return any(has_symbolic(y) for y in x)
+    return False
+
+
+class GhostWords:
+    """struct.unpack(">%dL" % n, data) for a symbolic count n: n big-endian words of `data`."""
+
+    def __init__(self, blob, size, count, signed=False):
+        self.blob, self.size, self.count, self.signed = blob, size, count, signed
+
+    def __symlen__(self):
+        return self.count
+
+    def __len__(self):
+        return self.count.__index__() if isinstance(self.count, SymNum) else self.count
+
+    def at(self, i):
+        piece = self.blob._slice(i * self.size, i * self.size + self.size).materialize(self.size)
+        t = z3.IntVal(0)
+        for b in piece.items:
+            t = t * 256 + _lift(b).t
+        if self.signed:
+            t = z3.If(t >= z3.IntVal(1 << (8 * self.size - 1)), t - z3.IntVal(1 << (8 * self.size)), t)
+        return SymNum(t)
+
+    def __getitem__(self, i):
+        i = _lift(i)
+        n = _lift(self.count)
+        if not bool(SymBool(z3.And(i.t >= -n.t, i.t < n.t))):
+            raise IndexError("tuple index out of range")
+        if bool(i < 0):
+            i = i + n
+        return self.at(i)
+
+    def __deepcopy__(self, memo):
+        return self
+
+
 # --------------------------------------------------------------------------
 # struct
 
@@ -553,6 +614,23 @@ class SymStruct:
 
     @staticmethod
     def unpack(fmt, data):
+        if isinstance(fmt, SymFormat):
+            m = re.match(r"^([<>!])%d([BHLIhlib])$", fmt.template)
+            if not m or len(fmt.args) != 1:
+                raise Unsupported("struct format %r with symbolic arguments" % fmt.template)
+            count = fmt.args[0]
+            if not bool(count >= 0):
+                raise _struct.error("bad char in struct format")
+            size = _SIZES[m.group(2)]
+            from .blobs import Blob
+
+            blob = Blob.of(data)
+            n = blob.__symlen__()
+            if not bool(_lift(n) == count * size):
+                raise _struct.error("unpack requires a buffer of the declared size")
+            if m.group(1) == "<":
+                raise Unsupported("little-endian symbolic-count unpack")
+            return GhostWords(blob, size, count, signed=m.group(2) in _SIGNED)
         if isinstance(data, (bytes, bytearray, memoryview)):
             return _struct.unpack(fmt, data)
         if hasattr(data, "materialize"):      # Blob: needs a provably concrete length
